@@ -1050,3 +1050,300 @@ theorem Inv.threadPlayer_outermost {m : M} (hi : Inv m) {top : Nat} {rest : List
   · exact ⟨rfl, hc.2⟩
 
 end Sc3Verif.C11
+
+namespace Sc3Verif.C11
+
+/-! ### The call stack is well formed: the model's "unreachable" branches are unreachable -/
+
+/-- Routine `caller` stands at a `nest` action (calling `callee`, if given). -/
+def AtNest (m : M) (caller : Nat) (callee : Option Nat) : Prop :=
+  ∃ k r' md v, (m.rt caller).pc = some k ∧ (m.rt caller).script[k]? = some (.nest r' md v) ∧
+    (callee = none ∨ callee = some r')
+
+/-- Every active frame has a position, and each frame below the top stands at the `nest` action
+    that called the frame above it. -/
+def Frames (m : M) : List Nat → Prop
+  | [] => True
+  | [r] => (m.rt r).pc.isSome
+  | callee :: caller :: rest => (m.rt callee).pc.isSome ∧ AtNest m caller (some callee) ∧ Frames m (caller :: rest)
+
+structure WFStack (m : M) : Prop where
+  frames : Frames m m.stack
+  pendingNest : ∀ r rest res, m.stack = r :: rest → m.pending = some res → AtNest m r none
+
+theorem frames_congr {m m' : M} {s : List Nat}
+    (h : ∀ r ∈ s, (m'.rt r).pc = (m.rt r).pc ∧ (m'.rt r).script = (m.rt r).script)
+    (hf : Frames m s) : Frames m' s := by
+  induction s with
+  | nil => trivial
+  | cons a rest ih =>
+    cases rest with
+    | nil => simp only [Frames] at hf ⊢; rw [(h a (by simp)).1]; exact hf
+    | cons b rest' =>
+      obtain ⟨h1, ⟨k, r', md, v, h2, h3, h4⟩, h5⟩ := hf
+      refine ⟨by rw [(h a (by simp)).1]; exact h1, ⟨k, r', md, v, ?_, ?_, h4⟩, ?_⟩
+      · rw [(h b (by simp)).1]; exact h2
+      · rw [(h b (by simp)).2]; exact h3
+      · exact ih (fun r hr => h r (by simp [hr])) h5
+
+theorem frames_tail {m : M} {a : Nat} {rest : List Nat} (h : Frames m (a :: rest)) : Frames m rest := by
+  cases rest with
+  | nil => trivial
+  | cons b rest' => exact h.2.2
+
+theorem frames_top_pc {m : M} {a : Nat} {rest : List Nat} (h : Frames m (a :: rest)) :
+    (m.rt a).pc.isSome := by
+  cases rest with
+  | nil => exact h
+  | cons b rest' => exact h.1
+
+
+theorem atNest_congr {m m' : M} {r : Nat} {c : Option Nat}
+    (h : (m'.rt r).pc = (m.rt r).pc ∧ (m'.rt r).script = (m.rt r).script) (ha : AtNest m r c) :
+    AtNest m' r c := by
+  obtain ⟨k, r', md, v, h1, h2, h3⟩ := ha
+  exact ⟨k, r', md, v, by rw [h.1]; exact h1, by rw [h.2]; exact h2, h3⟩
+
+theorem atNest_weaken {m : M} {r : Nat} {c : Option Nat} (ha : AtNest m r c) : AtNest m r none := by
+  obtain ⟨k, r', md, v, h1, h2, _⟩ := ha
+  exact ⟨k, r', md, v, h1, h2, Or.inl rfl⟩
+
+/-- The machine changes only outside the active frames (and possibly drops the pending result). -/
+theorem WFStack.of_same {m m' : M} (h : WFStack m) (hs : m'.stack = m.stack)
+    (hp : m'.pending = none ∨ m'.pending = m.pending)
+    (hr : ∀ r ∈ m.stack, (m'.rt r).pc = (m.rt r).pc ∧ (m'.rt r).script = (m.rt r).script) :
+    WFStack m' := by
+  refine ⟨by rw [hs]; exact frames_congr hr h.frames, ?_⟩
+  intro r rest res hst hpe
+  rw [hs] at hst
+  rcases hp with hp | hp
+  · rw [hp] at hpe; cases hpe
+  · rw [hp] at hpe
+    exact atNest_congr (hr r (by rw [hst]; simp)) (h.pendingNest r rest res hst hpe)
+
+/-- The top frame moves on inside its script (no result pending afterwards). -/
+theorem WFStack.advanceTop {m m' : M} (h : WFStack m) {top : Nat} {rest : List Nat}
+    (hst : m.stack = top :: rest) (hnd : top ∉ rest) (hs : m'.stack = m.stack) (hp : m'.pending = none)
+    (htop : (m'.rt top).pc.isSome)
+    (hr : ∀ r ∈ rest, (m'.rt r).pc = (m.rt r).pc ∧ (m'.rt r).script = (m.rt r).script) : WFStack m' := by
+  refine ⟨?_, ?_⟩
+  · rw [hs, hst]
+    have hf := h.frames
+    rw [hst] at hf
+    cases rest with
+    | nil => exact htop
+    | cons b rest' =>
+      obtain ⟨_, h2, h3⟩ := hf
+      exact ⟨htop, atNest_congr (hr b (by simp)) h2, frames_congr hr h3⟩
+  · intro r rest' res _ hpe; rw [hp] at hpe; cases hpe
+
+/-- The top frame is popped and its result travels to the caller. -/
+theorem WFStack.pop {m m' : M} (h : WFStack m) {top : Nat} {rest : List Nat}
+    (hst : m.stack = top :: rest) (hs : m'.stack = rest)
+    (hr : ∀ r ∈ rest, (m'.rt r).pc = (m.rt r).pc ∧ (m'.rt r).script = (m.rt r).script) : WFStack m' := by
+  have hf := h.frames
+  rw [hst] at hf
+  refine ⟨by rw [hs]; exact frames_congr hr (frames_tail hf), ?_⟩
+  intro r rest' res hst' _
+  rw [hs] at hst'
+  subst hst'
+  exact atNest_weaken (atNest_congr (hr r (by simp)) hf.2.1)
+
+theorem wf_exit {m : M} (h : WFStack m) {top : Nat} {rest : List Nat}
+    (hst : m.stack = top :: rest) (hn : top ∉ rest) (R : Rt) (res : Res) : WFStack (m.exit top R res) := by
+  apply h.pop hst (by simp [hst])
+  intro r hr
+  have : r ≠ top := fun e => hn (e ▸ hr)
+  simp [this]
+
+theorem wf_raiseIn {m : M} (h : WFStack m) {top : Nat} {rest : List Nat}
+    (hst : m.stack = top :: rest) (hn : top ∉ rest) (R : Rt) (e : Exc) : WFStack (m.raiseIn top R e) := by
+  unfold M.raiseIn
+  repeat' split
+  all_goals exact wf_exit h hst hn _ _
+
+/-- Changes outside routine records, stack and pending keep the stack well formed. -/
+theorem WFStack.of_coreEq {m m' : M} (h : WFStack m) (hc : CoreEq m m') : WFStack m' :=
+  h.of_same hc.stack (Or.inr hc.pending) (fun r _ => by rw [hc.rt]; exact ⟨rfl, rfl⟩)
+
+theorem wf_setPendingNone {m : M} (h : WFStack m) : WFStack ({ m with pending := none } : M) :=
+  h.of_same rfl (Or.inl rfl) (fun _ _ => ⟨rfl, rfl⟩)
+
+theorem wf_advance {m : M} (h : WFStack m) {top : Nat} {rest : List Nat}
+    (hst : m.stack = top :: rest) (hn : top ∉ rest) (hp : m.pending = none) (R : Rt) (k : Nat) :
+    WFStack (m.advance top R k) := by
+  refine h.advanceTop (m' := m.advance top R k) hst hn rfl hp (by simp) ?_
+  intro r hr
+  have : r ≠ top := fun e => hn (e ▸ hr)
+  simp [this]
+
+/-- `callNext` issued by the top frame standing at `nest r' …` (or from outside when nothing is active). -/
+theorem wf_callNext {m : M} (hi : Inv m) (h : WFStack m) (_hp : m.pending = none) (r' : Nat) (v : Val)
+    (hcaller : ∀ top rest, m.stack = top :: rest → AtNest m top (some r')) : WFStack (m.callNext r' v) := by
+  have hpend : ∀ res, WFStack ({ m with pending := some res } : M) := by
+    intro res
+    refine ⟨frames_congr (m := m) (fun _ _ => ⟨rfl, rfl⟩) h.frames, ?_⟩
+    intro r rest _ hst _
+    exact atNest_congr (m := m) ⟨rfl, rfl⟩ (atNest_weaken (hcaller r rest hst))
+  unfold M.callNext
+  split
+  · exact hpend _
+  · exact hpend _
+  · exact hpend _
+  · rename_i h1 h2 hrun
+    have hns : r' ∉ m.stack := fun hin => hrun ((hi.running r').2 hin)
+    have hrt : ∀ r ∈ m.stack, ((m.enter r' v).rt r).pc = (m.rt r).pc ∧
+        ((m.enter r' v).rt r).script = (m.rt r).script := by
+      intro r hr
+      have : r ≠ r' := fun e => hns (e ▸ hr)
+      simp [this]
+    refine ⟨?_, ?_⟩
+    · show Frames (m.enter r' v) (r' :: m.stack)
+      cases hst : m.stack with
+      | nil => simp [Frames]
+      | cons top rest =>
+        refine ⟨by simp, atNest_congr (hrt top (by simp [hst])) (hcaller top rest hst), ?_⟩
+        rw [← hst]
+        exact frames_congr hrt h.frames
+    · intro r rest res _ hpe
+      simp [M.enter] at hpe
+
+
+theorem applyRop_running_rt (m : M) (r : Nat) (o : ROp) (h : (m.rt r).state = .running) :
+    (m.applyRop r o).1.rt r = m.rt r := by
+  unfold M.applyRop
+  cases o <;> simp [h]
+
+theorem wf_handleReturn {m : M} (h : WFStack m) {top : Nat} {rest : List Nat}
+    (hst : m.stack = top :: rest) (hn : top ∉ rest) (k : Nat) (res : Res) :
+    WFStack (m.handleReturn top (m.rt top) k res) := by
+  have h0 : WFStack ({ m with pending := none } : M) := wf_setPendingNone h
+  have hs0 : ({ m with pending := none } : M).stack = top :: rest := hst
+  have hl : ∀ ev, WFStack (({ m with pending := none } : M).addLog ev) :=
+    fun ev => h0.of_coreEq (coreEq_addLog _ ev)
+  unfold M.handleReturn
+  simp only
+  split
+  · exact wf_advance (hl _) hs0 hn rfl _ _
+  · split
+    · exact wf_advance (hl _) hs0 hn rfl _ _
+    · exact wf_raiseIn h0 hs0 hn _ _
+  · split
+    · exact wf_exit h0 hs0 hn _ _
+    · exact wf_advance (hl _) hs0 hn rfl _ _
+    · exact wf_advance (hl _) hs0 hn rfl _ _
+    · exact wf_raiseIn h0 hs0 hn _ _
+  · exact h0
+
+theorem wf_execAct {m : M} (hi : Inv m) (h : WFStack m) {top : Nat} {rest : List Nat}
+    (hst : m.stack = top :: rest) (hp : m.pending = none) (k : Nat) (hk : (m.rt top).pc = some k) :
+    WFStack (m.execAct top (m.rt top) k) := by
+  have hnd := hi.nodup; rw [hst] at hnd
+  have hn : top ∉ rest := (List.nodup_cons.mp hnd).1
+  have hcore : ∀ m' : M, CoreEq m m' → ∀ R, WFStack (m'.advance top R k) := by
+    intro m' hc R
+    exact wf_advance (h.of_coreEq hc) (by rw [hc.stack]; exact hst) hn (by rw [hc.pending]; exact hp) R k
+  unfold M.execAct
+  split
+  · split <;> exact wf_exit h hst hn _ _
+  · rename_i a ha
+    cases a with
+    | yield v => exact wf_exit h hst hn _ _
+    | raise => exact wf_raiseIn h hst hn _ _
+    | raiseStop => exact wf_raiseIn h hst hn _ _
+    | yar v => exact wf_exit h hst hn _ _
+    | ay v => exact wf_exit h hst hn _ _
+    | nest r' md v =>
+      apply wf_callNext hi h hp
+      intro t rs hs'
+      rw [hst] at hs'
+      obtain ⟨rfl, _⟩ := List.cons.inj hs'
+      exact ⟨k, r', md, v, hk, ha, Or.inr rfl⟩
+    | rop r' o =>
+      simp only
+      have h1 : WFStack (m.applyRop r' o).1 := by
+        apply h.of_same (by simp) (Or.inr (by simp))
+        intro r hr
+        by_cases hrr : r = r'
+        · subst hrr
+          rw [applyRop_running_rt m r o ((hi.running r).2 hr)]; exact ⟨rfl, rfl⟩
+        · rw [applyRop_rt_ne _ _ _ _ hrr]; exact ⟨rfl, rfl⟩
+      have h2 := h1.of_coreEq (coreEq_addLog _ (.op top r' o (m.applyRop r' o).2))
+      exact wf_advance h2 (by simpa using hst) hn (by simpa using hp) _ _
+    | wait c =>
+      simp only
+      split
+      · exact wf_exit h hst hn _ _
+      · split
+        · exact wf_exit (h.of_coreEq (coreEq_setCond m c _)) (by simpa using hst) hn _ _
+        · exact wf_raiseIn h hst hn _ _
+    | waitFv f =>
+      simp only
+      split
+      · exact wf_exit h hst hn _ _
+      · split
+        · exact wf_exit (h.of_coreEq (coreEq_setFv m f _)) (by simpa using hst) hn _ _
+        · exact wf_raiseIn h hst hn _ _
+    | signal c => exact hcore _ (coreEq_signal m c) _
+    | unhang c => exact hcore _ (coreEq_releaseCond m c) _
+    | setTest c b => exact hcore _ (coreEq_setCond m c _) _
+    | readFv f => exact hcore _ (coreEq_addLog m _) _
+    | fvSet f v =>
+      simp only
+      split
+      · exact hcore _ ((coreEq_fvSet m f v).trans (coreEq_addLog _ _)) _
+      · exact hcore _ (coreEq_fvSet m f v) _
+    | here => exact hcore _ (coreEq_addLog m _) _
+
+theorem wf_step {m : M} (hi : Inv m) (h : WFStack m) : WFStack m.step := by
+  unfold M.step
+  split
+  · rename_i hs
+    have hnil : ∀ m' : M, m'.stack = [] → WFStack m' := by
+      intro m' hs'
+      exact ⟨by rw [hs']; trivial, fun r rest _ hst _ => by rw [hs'] at hst; cases hst⟩
+    unfold M.finishTick
+    repeat' split
+    all_goals exact hnil _ (by simpa using hs)
+  · rename_i top rest hst
+    have hnd := hi.nodup; rw [hst] at hnd
+    have hn : top ∉ rest := (List.nodup_cons.mp hnd).1
+    simp only
+    split
+    · exact h
+    · rename_i k hk
+      split
+      · exact wf_handleReturn h hst hn k _
+      · rename_i hp
+        exact wf_execAct hi h hst hp k hk
+
+theorem wf_inject {m : M} (hi : Inv m) (hidle : m.idle = true) (x : XOp) : WFStack (m.inject x) := by
+  obtain ⟨hs, hp, _⟩ := hi.idle_shape hidle
+  have hnil : ∀ m' : M, m'.stack = [] → WFStack m' := by
+    intro m' hs'
+    exact ⟨by rw [hs']; trivial, fun r rest _ hst _ => by rw [hs'] at hst; cases hst⟩
+  have hcall : ∀ (m0 : M), Inv m0 → m0.stack = [] → m0.pending = none → ∀ r v, WFStack (m0.callNext r v) := by
+    intro m0 hi0 hs0 hp0 r v
+    apply wf_callNext hi0 (hnil m0 hs0) hp0
+    intro t rs hst; rw [hs0] at hst; cases hst
+  unfold M.inject
+  simp only
+  cases x with
+  | next r v =>
+    simp only
+    refine hcall _ ?_ (by exact hs) (by exact hp) r v
+    exact ⟨hi.nodup, hi.running, hi.chain, hi.parentNil, hi.secs, fun h => by simp at h⟩
+  | tick =>
+    simp only
+    split
+    · exact hnil _ hs
+    · refine hcall _ ?_ (by exact hs) (by exact hp) _ _
+      refine ⟨hi.nodup, hi.running, hi.chain, hi.parentNil, ?_, fun h => by simp at h⟩
+      intro r hr; simp [hs] at hr
+  | rop r o => simp only; exact hnil _ (by simp [hs])
+  | signal c => simp only; exact hnil _ (by simp [hs])
+  | unhang c => simp only; exact hnil _ (by simp [hs])
+  | setTest c b => simp only; exact hnil _ (by simp [hs])
+  | fvSet f v => simp only; exact hnil _ (by simp [hs])
+
+end Sc3Verif.C11
